@@ -334,7 +334,24 @@ def spec_lit(e, bb, idx):
 
 def opd_lit(e, bb, idx):
     c = e["cls"]
-    if c in ("Dense", "Sum", "SumKron", "ConstantMul", "Toeplitz", "Root"):
+    if c == "SumKron":
+        # kron A_i + kron C_i with the eigh oracle of R_i^T A_i R_i, R_i = the inverse root of C_i computed the way
+        # root_inv_decomposition(method="cholesky") does ((L^-1)^T by a triangular solve against the identity; size 1: 1/sqrt)
+        k1, k2 = e["ops"]
+        eig = []
+        for a_s, c_s in zip(k1["ops"], k2["ops"]):
+            a = member(dense(a_s), bb, idx)
+            cm = member(dense(c_s), bb, idx)
+            m = cm.shape[-1]
+            if m == 1:
+                r = 1.0 / cm.sqrt()
+            else:
+                r = torch.linalg.solve_triangular(torch.linalg.cholesky(cm), torch.eye(m, dtype=F64), upper=False).mT
+            w, q = torch.linalg.eigh((r.mT @ a) @ r)
+            eig.append("(%d%%N, %s, %s)" % (m, mat_lit(q), vec_lit(w)))
+        return "(DSumKron [:: %s] [:: %s] [:: %s])" % (
+            "; ".join(opd_lit(x, bb, idx) for x in k1["ops"]), "; ".join(opd_lit(x, bb, idx) for x in k2["ops"]), "; ".join(eig))
+    if c in ("Dense", "Sum", "ConstantMul", "Toeplitz", "Root"):
         m = member(dense(e), bb, idx)
         return "(DGeneric %d%%N %s)" % (m.shape[-1], mat_lit(m))
     if c == "AddedDiag":
